@@ -286,7 +286,7 @@ def drive(rnd: random.Random, n: int) -> t.List[t.Dict[str, t.Any]]:
     for _ in range(n):
         if C.too_many_hangs():
             break
-        op = rnd.choice(("wint", "wint", "rint", "rint", "wbool", "rbool", "woct", "roct", "whdr", "rhdr", "rhdr", "tree"))
+        op = rnd.choice(("wint", "wint", "rint", "rint", "wbool", "rbool", "woct", "roct", "whdr", "rhdr", "rhdr", "tree", "siblings"))
         trail = bytes(rnd.randrange(256) for _ in range(rnd.randrange(0, 4)))
         try:
             if op == "wint":
@@ -360,7 +360,7 @@ def drive(rnd: random.Random, n: int) -> t.List[t.Dict[str, t.Any]]:
                 inp = b"\x04" + lo + val + trail
                 e = {"op": "roct", "inp": L(inp), "res": "ok", "val": [], "rest": []}
                 try:
-                    r = ASN1Reader(inp if rnd.random() < 0.5 else bytearray(inp) if rnd.random() < 0.5 else memoryview(inp))
+                    r = ASN1Reader(inp if rnd.random() < 0.4 else bytearray(inp) if rnd.random() < 0.4 else memoryview(inp) if rnd.random() < 0.5 else memoryview(inp).cast("b"))
                     e["val"] = L(r.read_octet_string())
                     e["rest"] = L(r.get_remaining_data())
                 except Exception as ex:  # noqa: BLE001
@@ -404,6 +404,31 @@ def drive(rnd: random.Random, n: int) -> t.List[t.Dict[str, t.Any]]:
                 except Exception as ex:  # noqa: BLE001
                     e["res"] = C.exc_kind(ex)
                 ev.append(e)
+            elif op == "siblings":
+                # two or three child writers of one parent open AT THE SAME TIME, written to in turns (two parallel lists filled
+                # in one loop); each child lands in the parent when it is closed, in closing order
+                n_kids = rnd.choice((2, 2, 3))
+                seqs = [[bytes(rnd.randrange(256) for _ in range(rnd.choice((0, 1, 3, 130)))) for _ in range(rnd.randrange(0, 4))] for _ in range(n_kids)]
+                w = ASN1Writer()
+                with w.push_sequence() as parent:
+                    kinds = [16 if rnd.random() < 0.7 else 17 for _ in range(n_kids)]
+                    kids = [parent.push_sequence() if kn == 16 else parent.push_set() for kn in kinds]
+                    for kd in kids:
+                        kd.__enter__()
+                    for turn in range(4):
+                        for kd, vals in zip(kids, seqs):
+                            if turn < len(vals):
+                                kd.write_octet_string(vals[turn])
+                    order = list(range(n_kids))
+                    rnd.shuffle(order)
+                    for j in order:
+                        kids[j].__exit__(None, None, None)
+                out = bytes(w.get_data())
+                r = ASN1Reader(out)
+                back = read_shapes(r)
+                shape = [{"cls": 0, "cons": 1, "num": 16, "kids": [{"cls": 0, "cons": 1, "num": kinds[j],
+                                                                     "kids": [{"cls": 0, "cons": 0, "num": 4, "val": L(v)} for v in seqs[j]]} for pos, j in enumerate(order)]}]
+                ev.append({"op": "tree", "shape": shape, "out": L(out), "back": back, "rest": L(r.get_remaining_data()), "trail": []})
             else:
                 shapes = [_shape(rnd, rnd.randrange(1, 7)) for _ in range(rnd.randrange(1, 3))]
                 w = ASN1Writer()
